@@ -369,6 +369,14 @@ struct Transport::Impl
             {
               return; // M-3: don't grow a buffer no one will drain
             }
+            if (bufIt->second->overflow)
+            {
+              // The stream already has a gap (an earlier chunk was dropped):
+              // appending a later chunk that happens to fit would hand the
+              // reader post-gap bytes before it sees BufferOverflow. Overflow
+              // is terminal for the buffer, so drop everything after it.
+              return;
+            }
             if (bufIt->second->data.size() + data.size() > config.maxSyncReceiveBuffer)
             {
               // Overflow: surface a distinct error to the parked waiter instead
